@@ -10,7 +10,7 @@ Oracle : (a) history invariants of the edited run: started/executed/failed ids r
          (b) an edit changing a started line (text or indentation) or the source of a macro that has started executing raises
              MethodEditError, leaves method text + method state untouched and the
              run equals (same ticks, same events) a twin run without that edit;
-         (c) differential: a fresh load of the final method (same inputs, same number of ticks, both quiescent) shows the
+         (c) differential: a fresh load of the final method (same inputs, each run until it is quiescent) shows the
              same per-thread effect order, the same executed lines, and finalizes every command the fresh run finalizes.
 """
 from __future__ import annotations
@@ -287,14 +287,15 @@ def run_case(case):
     elif S.has_interrupt_in_block():
         reason = "interrupt-in-block"
     if reason is None:
-        B = E.run_script(A["final_lines"], traj, ops, edit_cmds=EDIT_CMDS, inj_cmds=INJ_CMDS, drop_edits=True, drop_injects=True,
-                         n_ticks=A["n_ticks"])
+        # the fresh run goes on until IT is quiescent (timing is not compared; e.g. an edit applied before the program started
+        # replaces the command queue, so a user Pause queued in that tick exists only in the fresh run)
+        B = E.run_script(A["final_lines"], traj, ops, edit_cmds=EDIT_CMDS, inj_cmds=INJ_CMDS, drop_edits=True, drop_injects=True)
         startsB, lifeB = E.effects(B["events"])
         errA = [e[2:] for e in A["error_events"]]
         errB = [e[2:] for e in B["error_events"]]
         if errB:
             reason = "fresh-run-has-method-error"      # the reference itself fails (not an edit matter; C13's subject)
-        elif any(t > A["n_ticks"] - 5 for t, _ in startsB) or B["final_state"] != "Running":
+        elif not B["quiet"] or B["final_state"] != "Running":
             reason = "fresh-run-not-quiescent"
         else:
             cl.append("c-compared")
